@@ -403,6 +403,8 @@ def opaque_container(t, body=None, analysable=None):
                     if analysable(callee_name(tt)):
                         continue      # a crate function whose effect on the cursor is summarised (cursor lemma): analysed, not opaque
             return 'state after a call that may modify it'
+        if x[0] == 'len' and body is not None:
+            x = ('call', 'len', (x[1],), None)
         if x[0] == 'call':
             last = canon(x[1]).split('::')[-1]
             if last in ('len', 'is_empty') and x[2] and body is not None:
@@ -964,7 +966,7 @@ def report_sites(run, rule, inv, assume, floor=None):
         cd = canon_desc(run.facts, fn, desc)
         for k, e in assume.items():
             kf = k.split('|')
-            if k not in used and len(kf) >= 4 and kf[1] == fn and e.get('cdesc') == cd:
+            if k not in used and len(kf) >= 4 and kf[1] == fn and (e.get('cdesc') == cd or cd in e.get('alt_cdesc', [])):
                 chosen[(fn, desc)] = e
                 used.add(k)
                 break
